@@ -65,6 +65,14 @@ def _mk_record(cls, d, name, situation):
         r.commit_patch()
         r.close()
         return view
+    if situation == "patched11":  # two-digit patch indices
+        for i in range(2, 12):
+            r.create_patch()
+            r[f"w{i}"] = i
+            view[f"/w{i}"] = i
+            r.commit_patch()
+        r.close()
+        return view
     if situation == "uncommitted_patch":
         r.create_patch()
         r["u"] = 9
@@ -89,33 +97,36 @@ def _view(rec):
     return out
 
 
-def _fixture(cls, situation):
-    d = H.new_scratch("vt-c03-")
+def _fixture(cls, situation, sub=""):
+    root = H.new_scratch("vt-c03-")
+    d = os.path.join(root, sub) if sub else root
+    os.makedirs(d, exist_ok=True)
     try:
         for n in NEIGHBOURS:
             _mk_record(cls, d, n, "neighbour")
         view = _mk_record(cls, d, "foo", situation)
     except Exception as e:  # noqa: BLE001 - plain documented use (create with 'w', patch, commit) next to other records
         H.close_leaked_h5()
-        shutil.rmtree(d, ignore_errors=True)
+        shutil.rmtree(root, ignore_errors=True)
         raise Violation("C03:create-next-to-other-records-fails", f"{situation}: {type(e).__name__}: {e}", "records are created")
-    return d, view
+    return root, view
 
 
 def _target_files(listing):
     return sorted(n for n in listing if n == "foo.ih5" or n.startswith("foo.p") or n.startswith("foo.ih5mf"))
 
 
-def check_cell(cls, situation, mode, form, fixture, view):
-    d = H.new_scratch("vt-c03c-")
-    shutil.rmtree(d)
-    shutil.copytree(fixture, d)
-    cell = f"{cls.__name__}/{situation}/{mode}/{form}"
+def check_cell(cls, situation, mode, form, fixture, view, sub=""):
+    droot = H.new_scratch("vt-c03c-")
+    shutil.rmtree(droot)
+    shutil.copytree(fixture, droot)
+    d = os.path.join(droot, sub) if sub else droot
+    cell = f"{cls.__name__}/{situation}/{mode}/{form}" + (f"/dir={sub}" if sub else "")
     try:
         before = recutil.dir_digest(d)
         tfiles = [n for n in _target_files(before) if n.endswith(".ih5")]
         committed = [n for n in _target_files(before)
-                     if not (situation == "uncommitted_base" or situation == "uncommitted_patch" and n.startswith("foo.p2"))]
+                     if not (situation == "uncommitted_base" or situation == "uncommitted_patch" and n.startswith("foo.p2."))]
         arg = os.path.join(d, "foo") if form == "name" else [Path(os.path.join(d, n)) for n in reversed(tfiles)]
         expect_ok = {"r": situation != "absent", "r+": situation != "absent", "a": True, "w": form == "name",
                      "w-": form == "name" and situation == "absent", "x": form == "name" and situation == "absent"}[mode]
@@ -244,8 +255,13 @@ def check_cell(cls, situation, mode, form, fixture, view):
         exp_names = sorted(set(NEIGHBOURS) | ({"foo"} if exp_ff else set()))
         if names != exp_names:
             raise Violation("C03:list-records-wrong", names, exp_names)
+        # nothing may land outside the record's directory (e.g. in a parent directory with a dotted name)
+        stray = [os.path.relpath(os.path.join(dp, f), droot) for dp, _, fs in os.walk(droot) for f in fs
+                 if os.path.abspath(dp) != os.path.abspath(d)]
+        if stray:
+            raise Violation("C03:file-created-outside-record-directory", stray, "all containers next to the base container")
     finally:
-        shutil.rmtree(d, ignore_errors=True)
+        shutil.rmtree(droot, ignore_errors=True)
 
 
 def _delta(a, b):
@@ -326,6 +342,12 @@ def plan(tier, seed):
     for ci, cls in enumerate(["IH5Record", "IH5MFRecord"]):
         for s in SITUATIONS:
             sh.append(dict(name=f"matrix-{cls}-{s}", kind="matrix", cls=cls, situation=s))
+    # extra dimensions: two-digit patch indices; directories whose names contain the patch infix / extension
+    sh.append(dict(name="matrix-IH5Record-patched11", kind="matrix", cls="IH5Record", situation="patched11"))
+    sh.append(dict(name="matrix-IH5MFRecord-patched11", kind="matrix", cls="IH5MFRecord", situation="patched11"))
+    for sub in ("data.projects/v1", "store.ih5/x.p1"):
+        for s in ("committed_base", "patched", "absent"):
+            sh.append(dict(name=f"matrix-dir-{sub}-{s}", kind="matrix", cls="IH5Record", situation=s, sub=sub))
     sh += [dict(name=f"hist-{i}", kind="hist", i=i) for i in range(8)]
     return sh
 
@@ -335,8 +357,9 @@ def run_shard(shard, tier, seed, rec):
     if shard["kind"] == "matrix":
         cls = H.IH5Record if shard["cls"] == "IH5Record" else H.IH5MFRecord
         s = shard["situation"]
+        sub = shard.get("sub", "")
         try:
-            fx, view = _fixture(cls, s)
+            fx, view = _fixture(cls, s, sub)
         except Violation as v:
             rec.fail(v.signature, dict(kind="cell", cls=shard["cls"], situation=s, mode="w", form="name"), v.observed, v.expected)
             return
@@ -345,12 +368,12 @@ def run_shard(shard, tier, seed, rec):
                 for form in ("name", "list"):
                     if form == "list" and s == "absent":
                         continue
-                    case = dict(kind="cell", cls=shard["cls"], situation=s, mode=mode, form=form)
+                    case = dict(kind="cell", cls=shard["cls"], situation=s, mode=mode, form=form, sub=sub)
                     try:
-                        check_cell(cls, s, mode, form, fx, view)
+                        check_cell(cls, s, mode, form, fx, view, sub)
                     except Violation as v:
                         rec.fail(v.signature, case, v.observed, v.expected)
-                    nt = s in ("patched", "uncommitted_patch")
+                    nt = s in ("patched", "uncommitted_patch", "patched11")
                     rec.case(nt_key=case if nt else None, classes=["matrix_cell"], sample=case if nt and mode == "a" else None)
             rec.exhaustive["open_mode_matrix"] = True
         finally:
@@ -369,9 +392,9 @@ def replay(rp, rec):
     try:
         if case.get("kind") == "cell":
             cls = H.IH5Record if case["cls"] == "IH5Record" else H.IH5MFRecord
-            fx, view = _fixture(cls, case["situation"])
+            fx, view = _fixture(cls, case["situation"], case.get("sub", ""))
             try:
-                check_cell(cls, case["situation"], case["mode"], case["form"], fx, view)
+                check_cell(cls, case["situation"], case["mode"], case["form"], fx, view, case.get("sub", ""))
             finally:
                 shutil.rmtree(fx, ignore_errors=True)
             rec.case()
